@@ -23,7 +23,7 @@ from vlib.runner import HarnessError, Mismatch, drive
 PROP = "C05"
 LEVEL = "exploration"
 WORKERS = {"quick": 4, "thorough": 16}
-BUDGET = {"quick": 55, "thorough": 560}
+BUDGET = {"quick": 100, "thorough": 560}
 TECHNIQUE = (
     "Hypothesis-generated dict/list operation sequences (+ bounded-exhaustive short sequences) against a plain-dict "
     "model; differential execution unbuffered / fully buffered / random buffered sub-blocks"
